@@ -310,6 +310,11 @@ func (p *path) addRule(
 			switch nxt.typ {
 			case tokenEqual:
 				for nxt := next(); nxt.typ != tokenVariableEnd; nxt = next() {
+					switch nxt.typ {
+					case tokenSlash, tokenStar, tokenStarStar, tokenLiteral:
+					default:
+						return fmt.Errorf("nested variables are not supported %q", tmpl)
+					}
 					vars = append(vars, nxt)
 				}
 
